@@ -233,6 +233,13 @@ pub fn case(ctx: &mut Ctx, idx: u64) {
     let max_objects = if ctx.thorough() { 80 } else { 40 };
     for k in 0..n_maps {
         let text = match (k, rng.below(10)) {
+            // every eighth case: a long map (code paths that only open beyond ~1000 objects, e.g. chunked summation)
+            (2, _) if idx % 8 == 5 => {
+                ctx.count("class:pool-with-long-map");
+                let file_mode = *rng.pick(&[0u8, 0, 1, 2, 3]);
+                let n = 1030 + rng.usize_below(700);
+                osu::long_file_n(&mut rng, file_mode, n).render()
+            }
             // a hostile neighbour: decoding it ends in the middle of a rejected slider path (every third case)
             (1, _) if idx % 3 == 0 => {
                 ctx.count("class:pool-with-half-rejected-slider-file");
@@ -269,7 +276,7 @@ pub fn case(ctx: &mut Ctx, idx: u64) {
             text
         };
         let Some(map) = crate::maps::decode(&text) else { continue };
-        if crate::maps::out_of_domain(&map, crate::maps::Domain::Adversarial, 400).is_some() {
+        if crate::maps::out_of_domain(&map, crate::maps::Domain::Adversarial, 2000).is_some() {
             continue;
         }
         if crate::maps::est_sections(&map, 0.5) > 50_000.0 {
@@ -313,6 +320,7 @@ pub fn case(ctx: &mut Ctx, idx: u64) {
     let mut threaded = 0u64;
     let mut step = 0usize;
     let mut history: Vec<String> = Vec::new();
+    let mut heap_junk: Vec<Vec<u8>> = Vec::new();
     while step < n_ops {
         let mi = rng.usize_below(pool.len());
         let vi = rng.usize_below(3);
@@ -344,6 +352,14 @@ pub fn case(ctx: &mut Ctx, idx: u64) {
             });
             let on_thread = rng.chance(0.33);
             let e = &pool[mi];
+            // perturb the heap layout between observations: small live allocations of odd multiples of 16 bytes shift the
+            // 32-byte alignment of whatever the library allocates next ("no dependence on addresses")
+            if rng.chance(0.7) {
+                heap_junk.push(vec![0u8; 8 + 16 * rng.usize_below(9)]);
+            }
+            if heap_junk.len() > 64 && rng.chance(0.1) {
+                heap_junk.clear();
+            }
             let res = if on_thread {
                 threaded += 1;
                 std::thread::scope(|s| {
